@@ -9,7 +9,7 @@ ROUTER_THEOREMS = ['c11_reqrep_router_total', 'c11_pubsub_router_total']
 SRV_RULE = ('srv: each case: in-process server on loopback QUIC; one raw peer (trusted certificate) opens 6-14 streams whose first frame is a register frame of one of the four roles (3 in 4) '
             'or a Message / BatchMessage / Error / Ok frame, on a pool of 3 valid names (3 in 4) and 2-3 invalid ones (too short, too long, space, slash, non-ASCII, empty, dot, reserved '
             'namespace), and sends unexpected frames of all kinds mid-stream on acknowledged streams, including requests that fit the frame limit only before the server adds its routing tag; '
-            'then on a fresh topic a raw replier and a raw requestor exchange a request, the requestor sends a request of 1 MiB minus 9..28 bytes (too large only once tagged) and a further small one, which the replier must still receive and whose reply must come back; then a peer that grants the server no stream credit asks twice for a role of the wrong messaging pattern on an acknowledged topic and never reads the refusal; then the raw peer disconnects and a real client probes every acknowledged topic in its messaging pattern (3 messages published and received / 2 requests answered) and a fresh topic; finally 25 rounds in which eight streams on four connections are released together on a fresh topic, four asking to subscribe and four to request: each must be answered Ok or the kind-mismatch error, the acknowledged ones must belong to one messaging pattern and must still be open 120 ms later; '
+            'then on a fresh topic a raw replier and a raw requestor exchange a request, the requestor sends a request of 1 MiB minus 9..28 bytes (too large only once tagged) and a further small one, which the replier must still receive and whose reply must come back; then a peer that grants the server no stream credit asks twice for a role of the wrong messaging pattern on an acknowledged topic and never reads the refusal; then the raw peer disconnects and a real client probes every acknowledged topic in its messaging pattern (3 messages published and received / 2 requests answered) and a fresh topic; then one registration with an invalid name in a frame just under the 1 MiB limit (must still be answered with the invalid-topic error); finally 25 rounds in which eight streams on four connections are released together on a fresh topic, four asking to subscribe and four to request: each must be answered Ok or the kind-mismatch error, the acknowledged ones must belong to one messaging pattern and must still be open 120 ms later, and every subscriber acknowledged in the race must receive the 3 messages of a publisher that registers afterwards; '
             'non-trivial = distinct (first frame kind, name, reply)')
 
 
